@@ -144,6 +144,31 @@ func dumpFunc(p *Prog, name string) {
 		}
 		return
 	}
+	if os.Getenv("DUMP_EFFECTS") != "" {
+		e := p.Effects()
+		fmt.Printf("effects: %d functions summarised, %d iterations\n", e.Stats.Funcs, e.Stats.Iter)
+		sm := e.Summary(fn)
+		for i, w := range sm.WritesS {
+			fmt.Printf("  writes memory of param %d: %s\n", i, e.describe(w))
+		}
+		for d, w := range sm.WritesD {
+			fmt.Printf("  writes memory reached through param %d field %q: %s\n", d.idx, d.field, e.describe(w))
+		}
+		for g, w := range sm.WritesGlob {
+			fmt.Printf("  writes global %s: %s\n", g.RelString(nil), e.describe(w))
+		}
+		for g, w := range sm.once {
+			fmt.Printf("  once-writes global %s: %s\n", g.RelString(nil), e.describe(w))
+		}
+		for i := range sm.RetAddr {
+			fmt.Printf("  result %d: addr %s content %s fields %v\n", i, sm.RetAddr[i], sm.RetCont[i], sm.RetContF[i])
+		}
+		mg := p.mutableGlobals()
+		for g, why := range mg {
+			fmt.Printf("  mutable global %s: %s\n", g.RelString(nil), why)
+		}
+		return
+	}
 	ff := p.Facts(fn)
 	s := p.NewSym(fn)
 	vi := verdictIndex(fn)
